@@ -405,6 +405,17 @@ def step (c : Cl) (line : String) : Cl × String :=
     (c, if c.lag then "lag" else "ok")
   | ["pause"] => (c, "ok")
   | ["wait-ms", _] => (c, "ok")
+  -- other databases of the cluster (names with special characters, replica-side filters): each is
+  -- replicated like "db"; the model keeps no state for them, the check is the harness's
+  | ["filter", k, _] =>
+    (match k.toNat? >>= fun k => c.nodes[k]? with
+     | some n => (c, if n.up then "bad-op" else "ok")
+     | none => (c, "bad-op"))
+  | ["xdb", k, _, _] =>
+    (match k.toNat? >>= fun k => c.nodes[k]? with
+     | some n => (c, if !n.up then "bad-op" else if c.holder == k.toNat? then "ok" else "readonly")
+     | none => (c, "bad-op"))
+  | ["xdb-check"] => (c, if c.holder.isSome then "ok" else "no-primary")
   -- a handoff to a node whose stream handler on the primary is blocked (it waits for the locks of
   -- an application transaction before it can send the snapshot): the request is accepted, the
   -- lease id cannot be delivered within the processing time-out, the primary carries on
